@@ -16,10 +16,13 @@ tell them apart).  Rounding to binary32/binary64 is round-to-nearest-even, defin
 (`roundBin`).  Scope restrictions (the driver answers `skip=…` outside of them):
   * a decimal whose `BigDecimal::to_f64` goes through `f64` multiplication by `powi(10, n)`
     (negative scale, i.e. written with an exponent such as `1e3`) is not converted to float/double;
-  * xsd:dateTime years beyond ±262000 and non-ASCII characters in xsd:dateTime lexical forms;
+  * xsd:dateTime years beyond ±262000 (within i32), and non-ASCII characters in xsd:dateTime lexical
+    forms when the regex uses the Unicode-aware `\d`; which of `\d`/`[0-9]` and `.unwrap()`/`.ok()?` the
+    source uses is regenerated from it (Gen/DateTimeFlags.lean, tools/extractors/c14.py);
   * ORDER BY keys are variables (values come from the store as terms, `EvalResult::Term`).
 -/
 import SophiaModel.Basic.TermOrder
+import SophiaModel.Gen.DateTimeFlags
 
 namespace SophiaModel.OrderBy
 open SophiaModel SophiaModel.Term
@@ -377,7 +380,9 @@ def expect (c : Char) (cs : List Char) : Option (List Char) :=
 /-- `XsdDateTime::new`: the regex
 `^(-)?(\d{4,})-(\d{2}-\d{2}T\d{2}:\d{2}:\d{2})(?:\.(\d+))?(Z|[-+]\d{2}:\d{2})?$`, then chrono's validation -/
 def parseDateTime (s : Str) : DTParse :=
-  if s.any (fun c => c.toNat ≥ 128) then .outside else
+  -- a non-ASCII character: with `\d` it may be a Unicode digit (not modelled); with `[0-9]` nothing in the
+  -- regex can match it
+  if s.any (fun c => c.toNat ≥ 128) then (if Gen.dateTimeUnicodeDigits then .outside else .invalid) else
   let (neg, s1) := match s with | '-' :: r => (true, r) | _ => (false, s)
   let yd := s1.takeWhile isDigit
   let s2 := s1.dropWhile isDigit
@@ -425,9 +430,11 @@ def parseDateTime (s : Str) : DTParse :=
       | some tz =>
         -- the regex matched; from here on the code parses the captures
         let yv := digitsVal yd
-        if yv > 2147483647 then .panic else          -- `year.parse::<i32>().unwrap()`
+        -- `year.parse::<i32>()` overflows: `.unwrap()` panics, `.ok()?` makes it an unsupported lexical form
+        if yv > 2147483647 then (if Gen.dateTimeYearUnwrap then .panic else .invalid) else
         let year : Int := if neg then -(yv : Int) else yv
-        if year < -262000 || year > 262000 then .outside else
+        if year < -262143 || year > 262142 then .invalid else      -- `NaiveDate::from_ymd_opt` (chrono's year range)
+        if year < -262000 || year > 262000 then .outside else      -- near the range ends offsets may overflow: not modelled
         let nano : Nat := match frac with
           | none => 0
           | some fd => if fd.length ≥ 9 then digitsVal (fd.take 9) else digitsVal fd * 10 ^ (9 - fd.length)
